@@ -137,6 +137,10 @@ pub mod reqwest {
         pub fn new() -> (r: ClientBuilder) ensures r.roots@ == Set::<Seq<u8>>::empty(), !r.insecure@ { unimplemented!() }
         #[verifier::external_body]
         pub fn default_headers(self, h: header::HeaderMap) -> (r: ClientBuilder) ensures r == self { unimplemented!() }
+        // tls_built_in_root_certs(false) takes the system trust store away: the property wants it extended, not replaced
+        #[verifier::external_body]
+        pub fn tls_built_in_root_certs(self, b: bool) -> (r: ClientBuilder)
+            ensures r.roots == self.roots, r.insecure@ == (self.insecure@ || !b) { unimplemented!() }
         #[verifier::external_body]
         pub fn add_root_certificate(self, c: Certificate) -> (r: ClientBuilder)
             ensures r.roots@ == self.roots@.insert(c.pem@), r.insecure == self.insecure { unimplemented!() }
